@@ -818,6 +818,19 @@ def cases_special(shard, b):
                     yield mkspec(vm, ['a', 'b'][:len(vm) if vm else 2], d, typ, kind)
 
 
+# lexical level: single entries and range bounds that are almost integers of some notation
+LEX_INTS = ['1\u0662', '-4\u0968', '\u0661', '1\uff15', '\uff11', '1_0', ' 5', '5 ', '+', '-', '+ 5', '0x', '0X5', '0xg', '0x5g',
+            '0x 5', '5b', '0b1', '1b', '102b', '0101B', '1\u0661b', '009', '0_7', '1e3', '1.0', '5.', '--1', '+-1', '0x-5',
+            '5L', '0o7', '1,0', '\t5', '5\t', '5\r', '\u00b2', '1\u00b2', '١', '0x\uff15', '0\u0667']
+
+
+def cases_lexical(shard, b):
+    for typ in ('uint8', 'sint16'):
+        for a in LEX_INTS:
+            for vm in ([a], [a + '..9'], ['1..' + a], ['..' + a], [a + '..'], ['0', a], [a, '..']):
+                yield mkspec(vm, VALSTR[:len(vm)], None, typ, probes=probes_for(typ))
+
+
 def cases_wide(shard, b):
     typ = shard['type']
     for seq in shard_sequences(shard):
@@ -826,7 +839,7 @@ def cases_wide(shard, b):
 
 
 FAMILIES = {'core': cases_core, 'sizes': cases_sizes, 'kinds': cases_kinds, 'novm': cases_novm,
-            'special': cases_special, 'wide': cases_wide}
+            'special': cases_special, 'wide': cases_wide, 'lexical': cases_lexical}
 
 
 ALL_FIRSTS = list(range(-1, len(ATOMS)))
@@ -857,12 +870,13 @@ def plan(tier, seed):
                            len=b['kinds_faked_len']))
         shards.append(dict(check='novm', type=typ))
     shards.append(dict(check='special'))
+    shards.append(dict(check='lexical'))
     if b['wide_len']:
         for typ in ('uint16', 'sint16'):
             for firsts in groups(len(ALL_FIRSTS)):
                 shards.append(dict(check='wide', type=typ, firsts=firsts, len=b['wide_len']))
     # big shards first (better packing); the order never changes what is explored
-    weight = {'wide': 0, 'core': 1, 'sizes': 2, 'kinds': 3, 'novm': 4, 'special': 5}
+    weight = {'wide': 0, 'core': 1, 'sizes': 2, 'kinds': 3, 'novm': 4, 'special': 5, 'lexical': 6}
     shards.sort(key=lambda s: (weight[s['check']], s.get('type') not in ('uint8', 'sint8')))
     return shards
 
